@@ -6,6 +6,7 @@ and a recording backend whose measurement outcomes are scripted by the harness.
 tree :=  {"n":[p,q]} | {"f":name} | {"m":mode} | {"add":[a,b]} | {"mul":[a,b]} | {"neg":a}
        | {"pow":[a,b]} | {"fn":name,"a":[x]} | {"fn":name,"a":[x,y]}
 """
+import json
 import math
 from fractions import Fraction
 
@@ -39,11 +40,26 @@ FN1 = {
     "sin": np.sin, "cos": np.cos, "tan": np.tan, "tanh": np.tanh, "atan": np.arctan, "asinh": np.arcsinh,
     "acosh": np.arccosh, "sinh": np.sinh, "cosh": np.cosh, "exp": np.exp, "log": np.log, "sqrt": np.sqrt,
     "Abs": np.abs, "sign": np.sign,
+    "re": np.real, "im": np.imag, "conjugate": np.conj, "arg": None,   # arg: see _arg (branch cut guarded)
+    "floor": np.floor, "pimul": lambda x: np.pi * x,        # pimul(x) = pi*x with the EXACT SymPy pi
     "I": lambda x: 1j * x,                       # imaginary unit times x (complex values travel as re + im*I(1))
     "f32": lambda x: (np.complex64(x).item() if np.iscomplexobj(x) else float(np.float32(x))),   # dtype=np.float32
     "f64": lambda x: x,
 }
 FN2 = {"atan2": np.arctan2, "Max": np.maximum, "Min": np.minimum}
+
+
+def _arg(x):
+    """phase of a complex number; refuses inputs on (or within rounding of) the branch cut and the origin, where a
+    rounding difference of the last bit changes the result by 2 pi"""
+    x = np.asarray(x, dtype=complex)
+    if np.any((np.abs(x.imag) < 1e-9 * np.maximum(1.0, np.abs(x.real))) & (x.real <= 1e-9)):
+        raise Unsupported("arg on the branch cut")
+    v = np.angle(x)
+    return v.item() if v.ndim == 0 else v
+
+
+FN1["arg"] = _arg
 
 
 class Unbound(Exception):
@@ -132,7 +148,8 @@ def gen_expr(rng, depth, free_names, meas_modes, p_atom=0.35):
             k, v = rng.choice(leafs)
             return {k: v}
         return num(rng.choice(CONSTS))
-    kind = rng.choice(["add", "add", "mul", "mul", "neg", "fn1", "fn1", "fn1", "pow", "fn2", "sqrt1p", "div", "scale"])
+    kind = rng.choice(["add", "add", "mul", "mul", "neg", "fn1", "fn1", "fn1", "pow", "fn2", "sqrt1p", "div", "scale",
+                       "assume"])
     sub = lambda: gen_expr(rng, depth - 1, free_names, meas_modes, p_atom)
     if kind in ("add", "mul"):
         return {kind: [sub(), sub()]}
@@ -142,6 +159,20 @@ def gen_expr(rng, depth, free_names, meas_modes, p_atom=0.35):
         return {"mul": [num(rng.choice(CONSTS)), sub()]}
     if kind == "fn1":
         return {"fn": rng.choice(SAFE1), "a": [sub()]}
+    if kind == "assume":
+        # forms SymPy would rewrite at construction if an atom carried an assumption (real, positive, integer …):
+        # sqrt(x**2), Abs(x), sign(x), sin(pi*x), cos(pi*x), floor(c*x)
+        x = sub()
+        if not (atoms(x, "f") or atoms(x, "m")) and leafs:
+            # (on a constant SymPy would fold with the exact pi: cos(3*pi/2) is 0 exactly, a float evaluation gives -2e-16,
+            # and sign / floor behind it differ legitimately)
+            k, v = rng.choice(leafs)
+            x = {"add": [x, {k: v}]}
+        return rng.choice([
+            {"pow": [{"pow": [x, num(2)]}, num(0.5)]}, {"fn": "Abs", "a": [x]}, {"fn": "sign", "a": [x]},
+            {"fn": "sin", "a": [{"fn": "pimul", "a": [x]}]}, {"fn": "cos", "a": [{"fn": "pimul", "a": [x]}]},
+            {"fn": "floor", "a": [{"mul": [num(rng.choice([0.5, 1.5, 0.3])), x]}]},
+            {"fn": "exp", "a": [{"fn": "log", "a": [{"add": [num(1.0), {"pow": [x, num(2)]}]}]}]}])
     if kind == "fn2":
         return {"fn": "atan2", "a": [sub(), {"add": [num(1.5), {"fn": "cos", "a": [sub()]}]}]}
     if kind == "pow":
@@ -160,9 +191,62 @@ def well_conditioned(t, free, meas, lim=1e3, cplx=False):
     tr = []
     try:
         v = fold(t, free, meas, tr)
-    except (Unbound, Unsupported):
+    except (Unbound, Unsupported, TypeError, ValueError):
         return False
     return bool(np.all(np.isfinite(v))) and (cplx or not np.iscomplexobj(v)) and all(x < lim and x == x for x in tr)
+
+
+def gen_cexpr(rng, depth, cmodes, rmodes=(), free_names=(), real=True):
+    """expression whose value depends on the imaginary parts of the (complex) outcomes of `cmodes`: re, im,
+    conjugate, Abs, arg, exp(I*x) compositions; `rmodes` / `free_names` are real atoms.  With real=True the value is
+    real (it can be a gate parameter)."""
+    q = lambda: {"m": rng.choice(list(cmodes))}
+    ratom = lambda: ({"m": rng.choice(list(rmodes))} if rmodes and rng.random() < 0.5 else
+                     ({"f": rng.choice(list(free_names))} if free_names and rng.random() < 0.6 else num(rng.choice(CONSTS))))
+
+    def cplx(d):
+        """complex-valued"""
+        k = rng.choice(["q", "q", "conj", "mul", "add", "rot", "scale", "pow"]) if d > 0 else rng.choice(["q", "conj"])
+        if k == "q":
+            return q()
+        if k == "conj":
+            return {"fn": "conjugate", "a": [cplx(d - 1) if d > 0 else q()]}
+        if k == "mul":
+            return {"mul": [cplx(d - 1), cplx(d - 1)]}
+        if k == "add":
+            return {"add": [cplx(d - 1), {"mul": [num(rng.choice(CONSTS)), cplx(d - 1)]}]}
+        if k == "rot":   # q * exp(I * x), x real
+            return {"mul": [cplx(d - 1), {"fn": "exp", "a": [{"mul": [{"fn": "I", "a": [num(1)]}, realv(d - 1)]}]}]}
+        if k == "scale":
+            return {"mul": [ratom(), cplx(d - 1)]}
+        return {"pow": [cplx(d - 1), num(2)]}
+
+    def realv(d):
+        """real-valued"""
+        k = rng.choice(["re", "im", "im", "abs", "arg", "arg", "add", "mul", "atom", "sin", "neg"]) if d > 0 else \
+            rng.choice(["re", "im", "abs", "arg"])
+        if k in ("re", "im", "arg"):
+            return {"fn": k, "a": [cplx(d - 1)]}
+        if k == "abs":
+            # (not Abs of a power: SymPy stores Abs(conjugate(q)**2) as sqrt(q**2*conjugate(q)**2), a complex-TYPED value
+            # that real-only NumPy functions behind it — arctan2 in CXgate, thewalrus' rotation — refuse; SymPy's choice)
+            for _ in range(20):
+                a = cplx(d - 1)
+                if '"pow"' not in json.dumps(a):
+                    break
+            else:
+                a = q()
+            return {"fn": "Abs", "a": [a]}
+        if k == "add":
+            return {"add": [realv(d - 1), realv(d - 1)]}
+        if k == "mul":
+            return {"mul": [realv(d - 1), realv(d - 1)]}
+        if k == "sin":
+            return {"fn": rng.choice(["sin", "cos", "tanh"]), "a": [realv(d - 1)]}
+        if k == "neg":
+            return {"neg": realv(d - 1)}
+        return ratom()
+    return realv(depth) if real else cplx(depth)
 
 
 def gen_poly(rng, depth, free_names, meas_modes):
@@ -212,6 +296,12 @@ def to_sympy(t, free_objs, regs):
             e = int(e)
         return to_sympy(a, free_objs, regs) ** e
     if "fn" in t:
+        if t["fn"] == "I":
+            import sympy
+            return sympy.I * to_sympy(t["a"][0], free_objs, regs)
+        if t["fn"] == "pimul":
+            import sympy
+            return sympy.pi * to_sympy(t["a"][0], free_objs, regs)
         return getattr(pf, t["fn"])(*[to_sympy(a, free_objs, regs) for a in t["a"]])
     raise Unsupported(str(t))
 
@@ -345,7 +435,7 @@ def make_backend(outcomes):
             return False
 
         def _rec(self, name, modes, *args):
-            self.calls.append((name, tuple(int(m) for m in modes), tuple(np.asarray(a, dtype=float).tolist() if not np.iscomplexobj(a) else complex(a) for a in args)))
+            self.calls.append((name, tuple(int(m) for m in modes), tuple(np.asarray(a, dtype=float).tolist() if not np.iscomplexobj(a) else np.asarray(a).tolist() for a in args)))
 
         def prepare_vacuum_state(self, mode):
             self._rec("vacuum", [mode])
@@ -401,11 +491,12 @@ def make_backend(outcomes):
             key = tuple(int(m) for m in modes)
             k = next((i for i, o in enumerate(self.outcomes) if isinstance(o, tuple) and tuple(o[0]) == key), None)
             if k is not None:
-                v = np.array(self.outcomes.pop(k)[1], dtype=float)
+                v = np.array(self.outcomes.pop(k)[1])
             elif isinstance(self.outcomes[0], tuple):
                 raise RuntimeError(f"recording backend: no scripted outcome for modes {key}")
             else:
-                v = np.array(self.outcomes.pop(0), dtype=float)
+                v = np.array(self.outcomes.pop(0))
+            v = v.astype(complex if np.iscomplexobj(v) else float)
             self.calls.append((name, tuple(int(m) for m in modes), tuple(args) + (("shots", shots),)))
             return v.reshape(shots, len(modes))
 
